@@ -30,7 +30,11 @@ impl Parser {
 
         if !self.parsed_numbers.is_empty() && self.parsed_numbers[0] == 4 {
             for a in OSC_PALETTE.captures_iter(&self.parse_string) {
-                let color = a.get(1).unwrap().as_str().parse::<u32>()?;
+                let Some(color) = a.get(1) else {
+                    log::error!("Missing color index in OSC palette sequence: {}", self.parse_string);
+                    continue;
+                };
+                let color = color.as_str().parse::<u32>()?;
                 if color > 255 {
                     log::error!("Invalid color index: {}", color);
                     continue;
@@ -55,7 +59,10 @@ impl Parser {
         let url = parse_string.into();
         if url.is_empty() {
             caret.attribute.set_is_underlined(false);
-            let mut p = self.hyper_links.pop().unwrap();
+            // a close without a matching open has nothing to finish
+            let Some(mut p) = self.hyper_links.pop() else {
+                return;
+            };
             let cp = caret.get_position();
             if cp.y == p.position.y {
                 p.length = cp.x - p.position.x;
